@@ -23,8 +23,11 @@ def plan(ctx):
     out = []
     for kind in spaces.KINDS:
         if ctx.thorough:
-            for sp in ("S2", "P2", "P3", "T3", "T4", "T5", "T6", "D7", "D8", "D8x8", "D2x16", "PK"):
+            for sp in ("S2", "S2F", "P2", "P3", "T3", "T4", "T5", "T6", "D7", "D8", "D8x8", "D2x16", "PK"):
                 out.append((kind, "K0", sp, "float"))
+            for K in ("K1", "K3", "K9"):
+                out.append((kind, K, "S2F", "float"))
+            out.append((kind, "K0", "S2F", "mp"))
             for K in spaces.ALLK[1:] + ["KG0"]:
                 for sp in ("S2", "P2", "P3", "T3", "T4"):
                     out.append((kind, K, sp, "float"))
@@ -32,8 +35,9 @@ def plan(ctx):
                 for sp in ("S2", "P2", "T3"):
                     out.append((kind, K, sp, "mp"))
         else:
-            for sp in ("S2", "P2", "P3", "T3", "T4", "T5|V2", "T6|V2", "D7b1", "D8b1", "PK"):
+            for sp in ("S2", "S2F", "P2", "P3", "T3", "T4", "T5|V2", "T6|V2", "D7b1", "D8b1", "PK"):
                 out.append((kind, "K0", sp, "float"))
+            out.append((kind, "K1", "S2F", "float"))
             for K in spaces.ALLK[1:]:
                 for sp in ("S2", "T3"):
                     out.append((kind, K, sp, "float"))
@@ -49,7 +53,7 @@ def plan(ctx):
     return out
 
 
-PARTS = {"P2z": 2, "PK": 2, "T5|V2": 4, "T6|V2": 8, "D7b1": 4, "D8b1": 8, "T4|V3": 2, "S2": 4, "P2": 6, "P3": 8, "T3": 8, "T4": 24, "T5": 64, "T6": 256, "D7": 24, "D8": 64, "D8x8": 64,
+PARTS = {"S2F": 2, "P2z": 2, "PK": 2, "T5|V2": 4, "T6|V2": 8, "D7b1": 4, "D8b1": 8, "T4|V3": 2, "S2": 4, "P2": 6, "P3": 8, "T3": 8, "T4": 24, "T5": 64, "T6": 256, "D7": 24, "D8": 64, "D8x8": 64,
          "D2x16": 1, "T3|V6": 2}
 
 
